@@ -39,7 +39,14 @@ def main():
     g.append({'id': hszinc.Ref('s1', 'Site 1'), 'a': 2.0, 'b': 'site'})
     g.append({'id': hszinc.Ref('r4'), 'a': 3.0, 'siteRef': hszinc.Ref('s1')})
     g.append({'id': hszinc.Ref('r5'), 'a': 4.0, 'siteRef': hszinc.Ref('s1', 'other label')})
-    PROBES = ['r0', '@r0', 'r1', '@r1', 'r2', '@r2', 's1', '@s1', '@s1 "Site 1"', 'Site 1', 'r4', '@r4', 'r5', 'zz', '', 'None']
+    # two rows carrying the same id (look-ups answer the later one): a filter that keeps only the earlier row must not change that,
+    # and a row whose id was edited in place after the index was built
+    g.append({'id': hszinc.Ref('dup'), 'a': 77.0, 'b': 'first'})
+    g.append({'id': hszinc.Ref('dup'), 'a': 78.0, 'b': 'second'})
+    g.append({'id': hszinc.Ref('e0'), 'a': 79.0})
+    g.get('@e0')
+    g[-1]['id'] = hszinc.Ref('e1')
+    PROBES = ['r0', '@r0', 'r1', '@r1', 'r2', '@r2', 's1', '@s1', '@s1 "Site 1"', 'Site 1', 'r4', '@r4', 'r5', 'zz', '', 'None', 'dup', '@dup', '@e0', '@e1']
 
     def lookups():
         """what the grid answers to look-ups by key: the position of the row handed back (the lazily built index itself is not state,
